@@ -55,7 +55,7 @@ pub struct Target {
 }
 
 #[derive(Clone, Copy, PartialEq)]
-pub enum Mode { Echo, Sink, Greeter, CloseAfter(usize), SlowSink, Source(usize) }
+pub enum Mode { Echo, Sink, Greeter, CloseAfter(usize), SlowSink, Source(usize), ReplyAtEof(usize) }
 
 impl Target {
     /// a TCP target on `ip`: Echo = send back what arrives; Sink = only record; Greeter = send "HELLO" at
@@ -88,7 +88,12 @@ impl Target {
                     let mut reads = 0u64;
                     loop {
                         match s.read(&mut buf).await {
-                            Ok(0) => { c3.lock().unwrap()[idx].eof = true; break; }
+                            Ok(0) => {
+                                c3.lock().unwrap()[idx].eof = true;
+                                // ReplyAtEof(n): the answer is sent only once the request's end of stream was seen
+                                if let Mode::ReplyAtEof(n) = mode { let _ = s.write_all(&src_pattern(n)).await; let _ = s.shutdown().await; }
+                                break;
+                            }
                             Ok(n) => {
                                 reads += 1;
                                 if mode == Mode::SlowSink && reads % 8 == 0 { tokio::time::sleep(Duration::from_millis(2)).await; }
